@@ -43,10 +43,18 @@ func (x *Exec) mapHas(st *State, m, k Val, mt *types.Map) *Term {
 	return Select(st.sel(ph, m.T), x.coerceTo(k, kt))
 }
 
+func (x *Exec) mapLenHeap(st *State, mt *types.Map) (string, *Term) {
+	n := "ML_" + sanitize(mt.String())
+	return n, x.heap(st, n, ArrSort(SInt, SInt))
+}
+
 func (x *Exec) mapSet(st *State, m, k, v Val, mt *types.Map) {
 	vn, vh, pn, ph, kt, vt := x.mapHeaps(st, mt)
 	key := x.coerceTo(k, kt)
 	x.recordWrite(st, vn, m.T, nil, nil, nil, nil)
+	ln, lh := x.mapLenHeap(st, mt)
+	was := Select(st.sel(ph, m.T), key)
+	st.heaps[ln] = Store(lh, m.T, Ite(was, st.sel(lh, m.T), Add(st.sel(lh, m.T), IntLit(1))))
 	st.heaps[vn] = Store(vh, m.T, Store(st.sel(vh, m.T), key, x.coerceTo(v, vt)))
 	st.heaps[pn] = Store(ph, m.T, Store(st.sel(ph, m.T), key, tTrue))
 }
@@ -55,12 +63,15 @@ func (x *Exec) mapDelete(st *State, m, k Val, mt *types.Map) {
 	_, _, pn, ph, kt, _ := x.mapHeaps(st, mt)
 	key := x.coerceTo(k, kt)
 	x.recordWrite(st, pn, m.T, nil, nil, nil, nil)
+	ln, lh := x.mapLenHeap(st, mt)
+	was := Select(st.sel(ph, m.T), key)
+	st.heaps[ln] = Store(lh, m.T, Ite(was, Sub(st.sel(lh, m.T), IntLit(1)), st.sel(lh, m.T)))
 	st.heaps[pn] = Store(ph, m.T, Store(st.sel(ph, m.T), key, tFalse))
 }
 
 func (x *Exec) mapLen(st *State, m Val, mt *types.Map) *Term {
-	x.sym.Func("maplen", []Sort{SInt}, SInt)
-	t := mk("maplen", SInt, m.T)
+	_, lh := x.mapLenHeap(st, mt)
+	t := st.sel(lh, m.T)
 	st.assume(Ge(t, IntLit(0)))
 	return t
 }
@@ -74,6 +85,8 @@ func (x *Exec) newMap(st *State, ty *Ty, mt *types.Map) Val {
 	emptyV := mk("(as const "+string(ArrSort(ks, vs))+")", ArrSort(ks, vs), x.zero(vt))
 	st.heaps[vn] = Store(vh, m, emptyV)
 	st.heaps[pn] = Store(ph, m, emptyP)
+	ln, lh := x.mapLenHeap(st, mt)
+	st.heaps[ln] = Store(lh, m, IntLit(0))
 	return Val{T: m, Ty: ty}
 }
 
